@@ -342,6 +342,86 @@ def pressure_control_rows(ctx):
     ctx.ob("entries/directed", "ensures", r2, V.R(bp.f(k, B_DIRECTED)) != 0)
 
 
+@unit("C03", "pressure_control/node_entries", functions=[PCM + ":PressureControlComponent.create_pit_node_entries",
+                                                         PCM + ":PressureControlComponent.adaption_before_derivatives_hydraulic"],
+      engine="E3")
+def pressure_control_nodes(ctx):
+    """only in-service controllers with control_active fix the pressure of their controlled junction (and mark it
+    as a controlled node); a switched-off controller leaves the node alone"""
+    ctx.assume("A1", "A4", "A6", "A7")
+    cref = comp_class("pressure_control_component", "PressureControlComponent")
+    NPC, NLJ, NN_ = z3.Int("NPC"), z3.Int("NLJ"), z3.Int("NN")
+    cols = {"control_active": "b", "in_service": "b", "controlled_junction": "i", "controlled_p_bar": "f"}
+
+    def mk():
+        net = K.NetObj({"press_control": K.sym_table("press_control", NPC, cols),
+                        "_lookups": {"node_index": {"junction": K.sym_arr("junction_lookup", NLJ, "i")}}})
+        return [cref, net, K.sym_pit("node_pit", NN_, NCN)], {}
+    paths = T.run_paths(ctx, PCM + ":PressureControlComponent.create_pit_node_entries", mk)
+    ok = len(paths) == 1 and paths[0].exc is None
+    ctx.decided("entries/single-path", "cover", ok, witness=str([str(p.exc) for p in paths]))
+    tbl = K.sym_table("press_control", NPC, cols)
+    L = K.sym_arr("junction_lookup", NLJ, "i")
+    np0 = K.sym_pit("node_pit", NN_, NCN)
+    k, k2, n, c = z3.Int("k!pc"), z3.Int("k2!pc"), z3.Int("n!node"), z3.Int("c!col")
+    on = lambda r: z3.And(B(tbl.columns["control_active"].f(r)), B(tbl.columns["in_service"].f(r)))
+    node_of = lambda r: V.I(L.f(V.I(tbl.columns["controlled_junction"].f(r))))
+    pre = [NPC >= 0, NN_ >= 1, NLJ >= 0,
+           z3.ForAll([k], z3.Implies(z3.And(k >= 0, k < NPC), z3.And(
+               V.I(tbl.columns["controlled_junction"].f(k)) >= 0, V.I(tbl.columns["controlled_junction"].f(k)) < NLJ,
+               node_of(k) >= 0, node_of(k) < NN_))),
+           # one working controller per controlled junction
+           z3.ForAll([k, k2], z3.Implies(z3.And(k >= 0, k < NPC, k2 >= 0, k2 < NPC, k != k2, on(k), on(k2)),
+                                         node_of(k) != node_of(k2)))]
+    if ok:
+        p = paths[0]
+        npit = p.args[0][2]
+        a = pre + list(p.facts) + [p.cond()]
+        ctx.ob("entries/working-controller-fixes-its-junction", "ensures", a + [k >= 0, k < NPC, on(k)],
+               K.eq_val(npit.f(node_of(k), N_PINIT), tbl.columns["controlled_p_bar"].f(k)))
+        ctx.ob("entries/other-nodes-untouched", "frame",
+               a + [n >= 0, n < NN_, z3.ForAll([k], z3.Implies(z3.And(k >= 0, k < NPC, on(k)), node_of(k) != n))],
+               K.eq_val(npit.f(n, N_PINIT), np0.f(n, N_PINIT)))
+        ctx.ob("entries/other-columns-untouched", "frame", a + [n >= 0, n < NN_, c >= 0, c < NCN, c != N_PINIT],
+               K.eq_val(npit.f(n, c), np0.f(n, c)))
+        ctx.check_safety(paths, pre, "entries/fn", kinds=("index", "shape", "mask"))
+    # marking of the controlled nodes in the active pit
+    ncol = class_const(cref, "internal_cols")
+    JU, CO, IS = class_const(cref, "JUNCTS"), class_const(cref, "CONTROLLED"), class_const(cref, "IN_SERVICE")
+    N_NODE_TYPE, N_PC = K.const(ND, "NODE_TYPE"), K.const(ND, "PC")
+
+    def mk2():
+        net = K.NetObj({"_lookups": {"node_index_active_hydraulics": {"junction": K.sym_arr("junction_lookup_active", NLJ, "i")}}})
+        return [cref, net, K.sym_pit("branch_pit", z3.Int("NB"), NCB), K.sym_pit("node_pit", NN_, NCN, int_cols=(N_NODE_TYPE,)),
+                None, None, {}, {}], {}
+    ca = K.sym_pit("press_control_array", NPC, ncol, int_cols=(JU,))
+    paths2 = T.run_paths(ctx, PCM + ":PressureControlComponent.adaption_before_derivatives_hydraulic", mk2,
+                         contracts={"pandapipes.component_models.component_toolbox:get_component_array": lambda ev, a_, kw: ca})
+    normal = [p for p in paths2 if p.exc is None]
+    raised = [p for p in paths2 if p.exc is not None]
+    ctx.decided("marking/paths", "cover", len(normal) == 1 and len(raised) == 1, witness=str([str(p.exc) for p in paths2]))
+    La = K.sym_arr("junction_lookup_active", NLJ, "i")
+    node_a = lambda r: V.I(La.f(V.I(ca.f(r, JU))))
+    in_s = lambda r: V.R(ca.f(r, IS)) != 0
+    ctrl = lambda r: V.R(ca.f(r, CO)) != 0
+    pre2 = [NPC >= 0, NN_ >= 1, NLJ >= 0, z3.ForAll([k], z3.Implies(z3.And(k >= 0, k < NPC), z3.And(
+        V.I(ca.f(k, JU)) >= 0, V.I(ca.f(k, JU)) < NLJ, node_a(k) >= -1, node_a(k) < NN_)))]
+    np1 = K.sym_pit("node_pit", NN_, NCN, int_cols=(N_NODE_TYPE,))
+    for p in normal:
+        npit = p.args[0][3]
+        a = pre2 + list(p.facts) + [p.cond()]
+        ctx.ob("marking/working-controller-marks-PC-node", "ensures", a + [k >= 0, k < NPC, in_s(k), ctrl(k)],
+               K.eq_val(npit.f(node_a(k), N_NODE_TYPE), N_PC))
+        ctx.ob("marking/other-nodes-keep-their-type", "frame",
+               a + [n >= 0, n < NN_, z3.ForAll([k], z3.Implies(z3.And(k >= 0, k < NPC, in_s(k), ctrl(k)), node_a(k) != n))],
+               K.eq_val(npit.f(n, N_NODE_TYPE), np1.f(n, N_NODE_TYPE)))
+        ctx.ob("marking/returns-only-if-every-in-service-controller-has-a-supplied-junction", "ensures",
+               a + [k >= 0, k < NPC, in_s(k)], node_a(k) != -1)
+    for p in raised:
+        ctx.ob("marking/raises-only-for-a-disconnected-controlled-junction", "ensures", pre2 + list(p.facts) + [p.cond()],
+               z3.Exists([k], z3.And(k >= 0, k < NPC, in_s(k), node_a(k) == -1)))
+
+
 CMP = CM + "compressor_component"
 
 
